@@ -8,6 +8,7 @@ import (
 	"time"
 
 	"github.com/ohler55/slip"
+	"github.com/ohler55/slip/pkg/flavors"
 	"verifharness/common"
 )
 
@@ -77,7 +78,7 @@ func lobjTerm(o slip.Object) (string, bool) {
 		case slip.Symbol:
 			b.WriteString("(LSym " + gBytes(string(to)) + ")")
 		case slip.Time:
-			b.WriteString("(LTime " + common.GZ(time.Time(to).UnixNano()) + ")")
+			b.WriteString("(LTime " + common.GZs(timeNanos(time.Time(to))) + ")")
 		case slip.List:
 			b.WriteString("(LList [")
 			for i, e := range to {
@@ -540,7 +541,7 @@ func (h *harness) pathStream(nHist int) {
 			}
 			x := ctx.Rng.Intn(100)
 			var opTerm, lisp, valShown string
-			var isRead, isWalk bool
+			var isRead, isWalk, asBags bool
 			pathArg := func(p []frag) string {
 				ps := pathString(ctx.Rng, p)
 				if ctx.Rng.Chance(15) {
@@ -633,6 +634,15 @@ func (h *harness) pathStream(nHist int) {
 				scope.Set(slip.Symbol("acc"), nil)
 				if len(p) == 1 && p[0].kind == 'd' && ctx.Rng.Bool() {
 					lisp = "(progn (bag-walk b (lambda (x) (setq acc (cons x acc)))) (reverse acc))"
+				} else if ctx.Rng.Chance(25) {
+					// the matches delivered as bags, kept and looked at afterwards
+					asBags = true
+					if ctx.Rng.Bool() {
+						lisp = "(progn (bag-walk b (lambda (x) (setq acc (cons x acc))) " + pathArg(p) + " t) (reverse acc))"
+					} else {
+						lisp = "(bag-get-all b " + pathArg(p) + common.Pick(ctx.Rng, []string{"", " :bag-list"}) + ")"
+					}
+					ctx.Hist("op:walk-as-bags")
 				} else if ctx.Rng.Chance(35) {
 					lisp = "(bag-get-all b " + pathArg(p) + " :native)"
 				} else if ctx.Rng.Chance(25) {
@@ -660,7 +670,20 @@ func (h *harness) pathStream(nHist int) {
 			if isRead && !errFlag {
 				if isWalk {
 					l, _ := out.Value.(slip.List)
+					seenBag := map[*flavors.Instance]bool{}
 					for _, e := range l {
+						if asBags {
+							inst, isBag := e.(*flavors.Instance)
+							if !isBag {
+								resOK = false
+								break
+							}
+							if seenBag[inst] {
+								ctx.Violate("the same bag instance was delivered for two matches", rec, "one instance twice", "a bag per match")
+							}
+							seenBag[inst] = true
+							e = slip.SimpleObject(inst.Any)
+						}
 						t, ok := lobjTerm(sortPairs(e))
 						resOK = resOK && ok
 						resTerms = append(resTerms, t)
